@@ -35,26 +35,33 @@ warnings.filterwarnings("ignore", message=".*Casting complex values to real.*")
 PROPERTY = "C20"
 LEVEL = "exploration"
 RULE = (
-    "Hypothesis draws a recipe of the table vlib/gen/recipes.py (every class of the DisciplineFactory and MDAFactory that can be "
-    "built offline: analytic / linear / concatenation / splitting / auto-py / array-based / remapping / filtering / Taylor / "
-    "surrogate / aggregation disciplines, Sellar, Sobieski (+SG), Ishigami, aerostructure, propane, RosenMF, scalable, topology "
-    "optimisation, ODE, all chains, the 7 MDA classes on Sellar, the Sobieski processes, scenario adapters; MDO and DOE scenarios "
-    "with MDF / IDF / DisciplinaryOpt; MDOFunction kinds incl. ProblemFunction through a preprocessed problem; DesignSpace / "
-    "ParameterSpace; OptimizationProblem), its arguments, the grammar type (JSON / Simple / Pydantic / Simpler where the class "
-    "can be built with it), the cache (none / SimpleCache / MemoryFullCache / HDF5Cache in the scratch directory), a life before "
-    "pickling (list of: execute at a generated point, repeated execute, linearize all / a differentiated subset, re-bound "
-    "defaults, finite-difference mode, a DOE scenario run driving the object), the channel (pickle.dumps/loads with a drawn "
-    "protocol, to_pickle/from_pickle, or a forked multiprocessing worker that receives the object, executes it and sends it "
-    "back) and 1-3 generated input points (base point of the recipe perturbed component-wise, possibly omitting defaulted "
-    "inputs).  The restored object must expose equal grammars (names, required names, defaults, same accept/reject decisions), "
-    "settings, cache content, local data, Jacobian, differentiated names and counters; execute / linearize on the generated "
-    "points must give bit-identical outputs and Jacobians on both; after mutating one of the two (defaults in place and "
-    "re-bound, local data, differentiated names, counters, cache, a new execution) the other must be unchanged and recompute "
-    "the same values; a restored HDF5Cache must point to the same file/node and hit on the stored entries.  Scenarios, "
-    "problems, functions and spaces are compared likewise (results, databases, n_calls, normalisation maps).  "
-    "Non-trivial = object pickled after >= 1 real execution and >= 1 linearisation (disciplines / MDAs), after a run "
-    "(scenarios, problems), after >= 1 evaluation (functions) or with a current value and built normalisation data (spaces); "
-    "distinct = structural hash of the drawn case."
+    "One Hypothesis run per recipe of vlib/gen/recipes.py (57 of the 62 classes of DisciplineFactory + MDAFactory; the 5 others "
+    "need external tools and are listed in skipped_classes): analytic / linear / concatenation / splitting / auto-py / "
+    "array-based / remapping / filtering / Taylor / surrogate / aggregation disciplines, Sellar, Sobieski (+SG), Ishigami, "
+    "aerostructure, propane, RosenMF, linear and parametric scalable, topology optimisation, ODE oscillator, the 5 chains, the 7 "
+    "MDA classes on Sellar, the Sobieski chain / MDAs, the 2 scenario adapters.  A case draws the recipe arguments, the grammar "
+    "type (JSON / Simple / Pydantic / Simpler where the class can be built with it), the cache (none / SimpleCache / "
+    "MemoryFullCache / HDF5Cache in VERIF_SCRATCH, tolerance 0 or 1e-12), whether statistics are enabled, a life before pickling "
+    "(0-4 of: execute at a generated point, repeated execute, linearize all / a differentiated subset, re-bound default, "
+    "finite-difference mode, a CustomDOE scenario driving the object with or without Jacobians), the channel (pickle.dumps/loads "
+    "with protocol 2/4/5, to_pickle/from_pickle, or a forked multiprocessing worker that receives the object through a pipe, "
+    "executes it and sends it back), 1-3 generated points (base point of the recipe perturbed component-wise, possibly omitting "
+    "defaulted inputs, executed or linearized) and 1-4 mutations.  The restored object must expose equal grammars (ordered "
+    "names, required names, defaults, same accept / reject decision on a complete, an incomplete and an ill-typed input), "
+    "settings (MDA settings model, scaling, residual history, couplings), default inputs, cache content incl. last entry, "
+    "local data, Jacobian, differentiated names, status and counters, recursively for sub-disciplines; re-executing the last "
+    "input must hit or miss on both; execute / linearize at the generated points must give bit-identical outputs, Jacobians "
+    "and local data and the same counter increments; after mutating one object (defaults in place and re-bound, local data, "
+    "Jacobian and differentiated names, counters, cache.clear(), a new execution) the other must expose the same state and "
+    "(history-free recipes) recompute the recorded values; a restored HDF5Cache must point to the same file / node and see the "
+    "entries.  Further drives: 18 MDOFunction kinds incl. ProblemFunction of a preprocessed problem (attributes, n_calls, "
+    "travelling database, evaluate / jac, independence); DesignSpace / ParameterSpace (views, ==, normalisation / projection / "
+    "cdf maps, OT sampling, independence); OptimizationProblem fresh / evaluated / after a driver (views incl. database, "
+    "solution, counters; evaluate_functions; SLSQP / COBYLA / LHS / Halton run on both: equal results and databases; "
+    "independence); MDO / DOE scenarios with DisciplinaryOpt / MDF / IDF / DisciplinaryOpt over an MDA, fresh or after 1-2 runs, "
+    "incl. running the scenario inside the forked worker.  Non-trivial = discipline / MDA pickled after >= 1 real execution "
+    "and >= 1 linearisation; scenario after >= 1 run; problem after a driver run; function after >= 1 evaluation; space with "
+    "built normalisation data and a current value; distinct = structural hash of the drawn case."
 )
 ASSUMPTIONS = [
     "original and restored object live in one Python version / platform (no cross-version pickles)",
@@ -474,6 +481,8 @@ class Life:
         self.fd = self.rec.approx or bool(self.rec.needs_fd and self.rec.needs_fd(self.args))
         if self.fd:
             d.set_jacobian_approximation()
+        if cache_kind == "HDF5" and any(not isinstance(v, np.ndarray) for v in self.base.values()):
+            cache_kind = "Simple"  # HDF5 caches store arrays only (e.g. the integer 'fidelity' of RosenMF is rejected)
         self.cache_kind = cache_kind
         tol = float(p.get("cache_tol", 0.0))
         if cache_kind == "None":
@@ -487,6 +496,7 @@ class Life:
         elif cache_kind == "HDF5":
             d.set_cache(d.CacheType.HDF5, tolerance=tol, hdf_file_path=os.path.join(tmp, "cache.h5"), hdf_node_path="c20_node")
         self.last_input = None
+        self.history = []  # every point the object was executed / linearized at
         self.n_exec = 0
         self.n_lin = 0
         self.flags = set()
@@ -538,7 +548,7 @@ class Life:
         try:
             self._apply(op)
         except Exception as exc:  # noqa: BLE001
-            if is_harness_fault(exc):
+            if is_harness_fault(exc) and not isinstance(exc, R.DeliberateFailure):
                 raise
             self.flags.add(f"pre_op_raises:{op['op']}:{type(exc).__name__}")
 
@@ -551,6 +561,7 @@ class Life:
             kind = "exec"
         if kind == "exec":
             self.last_input = self.point(op["u"], op["partial"])
+            self.history.append(self.last_input)
             d.execute(self.last_input)
             self.n_exec += 1
         elif kind == "exec_same":
@@ -558,6 +569,7 @@ class Life:
             self.flags.add("repeated_execute")
         elif kind in ("lin", "lin_all"):
             self.last_input = self.point(op["u"], op["partial"])
+            self.history.append(self.last_input)
             self.linearize(d, self.last_input, "all" if kind == "lin_all" else "subset", op["k"])
             self.n_exec += 1
             self.n_lin += 1
@@ -583,7 +595,7 @@ class Life:
         ins, outs = self.diff_candidates()
         ins = [n for n in ins if self.base[n].dtype.kind == "f" and self.base[n].ndim == 1]
         complete = all(n in d.io.input_grammar.defaults for n in d.io.input_grammar)
-        if not ins or not outs or not complete or self.gtype == "Pydantic":
+        if not ins or not outs or not complete:
             return self._apply({**op, "op": "exec"})
         name = ins[op["k"] % len(ins)]
         pts = [self.point(op["u"])[name], self.point([-v for v in op["u"]])[name]]
@@ -614,7 +626,7 @@ def _call(fn):
     except Violation:
         raise
     except Exception as exc:  # noqa: BLE001
-        if is_harness_fault(exc):
+        if is_harness_fault(exc) and not isinstance(exc, R.DeliberateFailure):
             raise
         return "raises", type(exc).__name__
 
@@ -637,6 +649,23 @@ def case_discipline(p, ctx):
         shutil.rmtree(tmp, ignore_errors=True)
 
 
+def _contains(d, class_name: str, depth=0) -> bool:
+    if type(d).__name__ == class_name:
+        return True
+    return depth < 4 and any(_contains(s, class_name, depth + 1) for s in getattr(d, "disciplines", ()) or ())
+
+
+def _seen(data, seen) -> bool:
+    """Whether the completed point may already be in the cache (None in ``seen``: unknown points were run)."""
+    for old in seen:
+        if old is None:
+            return True
+        common = set(old) & set(data)
+        if all(np.array_equal(old[k], data[k]) for k in common):
+            return True  # differing only by defaulted names: conservatively a possible hit
+    return False
+
+
 def _has_operator_block(jac) -> bool:
     return any(not isinstance(b, np.ndarray) and not hasattr(b, "toarray") for blocks in (jac or {}).values() for b in blocks.values())
 
@@ -655,6 +684,7 @@ def _discipline_body(p, ctx, rec, tmp):
     cache_kind = p["cache"]
     channel = p["channel"]
     life = Life(p, cache_kind, tmp)
+    cache_kind = life.cache_kind
     orig = life.obj
     ctx.cls(f"recipe:{p['recipe']}", f"class:{type(orig).__name__}", f"grammar:{life.gtype}", f"cache:{cache_kind}", f"channel:{channel}")
     for op in p["pre"]:
@@ -675,6 +705,8 @@ def _discipline_body(p, ctx, rec, tmp):
 
     if cache_kind == "HDF5" and orig.cache._last_accessed_index.value != orig.cache._max_index.value and ctx.known("hdf5_last_entry_not_restored"):
         return
+
+    no_restored_linearize = _contains(orig, "SobieskiAerodynamics") and ctx.known("sobieski_aerodynamics_linearize_after_restore", count=False)
 
     # the twin is only needed where the original may not write new cache entries any more
     twin = None
@@ -747,11 +779,20 @@ def _discipline_body(p, ctx, rec, tmp):
 
     # ------------------------------------------------------------------ behaviour on generated inputs
     ref = twin if twin is not None else orig
+    aero_alone = orig if type(orig).__name__ == "SobieskiAerodynamics" else None
+    seen = list(life.history) + ([worker_input] if channel == "fork" else [])
+    if "after_scenario_run" in life.flags:
+        seen.append(None)  # points chosen by the DOE: any later point may be a hit
     recorded = []
     failed_op = False  # an operation rejected by gemseo leaves the objects in status FAILED: later results depend on it
     for post in p["post"]:
         data = life.point(post["u"], post["partial"])
         mode = post["lin"] if rec.linearizable else "no"
+        if mode != "no" and no_restored_linearize and (orig is not aero_alone or _seen(data, seen)):
+            # (a lone SobieskiAerodynamics is only affected when the point may hit its cache)
+            ctx.known("sobieski_aerodynamics_linearize_after_restore")  # counted; the point is executed instead
+            mode = "no"
+        seen.append(data)
         if mode == "no":
             r1 = _call(lambda: plain(dict(ref.execute(_cp(data)))))
             r2 = _call(lambda: plain(dict(restored.execute(_cp(data)))))
@@ -801,6 +842,10 @@ def _discipline_body(p, ctx, rec, tmp):
         # re-run the comparison on the untouched object: same values as before the mutation
         # (objects whose results depend on the call history are covered by the snapshot comparison only)
         for data, mode, k, expected in recorded:
+            if mode != "no" and ("fd_mode" in life.flags or cache_kind in ("MemoryFull", "HDF5")):
+                # a Jacobian cached before the switch to finite differences is not what a recomputation gives; after
+                # a hit in a full cache a process linearizes its sub-disciplines where they were executed last
+                continue
             if mode == "no":
                 got = _call(lambda: plain(dict(untouched.execute(_cp(data)))))
             else:
@@ -808,8 +853,10 @@ def _discipline_body(p, ctx, rec, tmp):
             ctx.check(got[0] == "ok", "independence", f"after mutating the {who} object the other one raises {got[1]}")
             value = got[1]
             if mode == "subset":
-                # differentiated names accumulate: compare the blocks requested at that time
-                value = {o: {i: blk for i, blk in value.get(o, {}).items() if i in expected[o]} for o in expected if o in value}
+                # differentiated names accumulate and a cache hit returns every stored block: compare the
+                # blocks present in both answers
+                value = {o: {i: blk for i, blk in value[o].items() if i in expected[o]} for o in value if o in expected}
+                expected = {o: {i: blk for i, blk in expected[o].items() if i in value[o]} for o in expected if o in value}
             d = diff(expected, value)
             ctx.check(d is None, "independence", f"after mutating the {who} object ({', '.join(done)}) the other one computes different values: {d}")
     if life.n_exec >= 1 and life.n_lin >= 1:
